@@ -1,17 +1,21 @@
 """C03 — crash recovery is atomic and prefix-consistent (E4)."""
 from . import crashwl as W
+from . import crashproto as P
+from . import multigen as MG
 
 PARAM_SECTIONS = ["wal"]
 
-MODEL_TARGETS = []
+MODEL_TARGETS = ["theories/Crash/Proto.vo"]
 TRUSTED = __import__("vlib.c02", fromlist=["TRUSTED"]).TRUSTED
 ASSUMPTIONS = __import__("vlib.c02", fromlist=["ASSUMPTIONS"]).ASSUMPTIONS
 
 
 def explore(ctx):
-    r = W.explore(dict(ctx, seed=ctx["seed"] + 1000), "C03", {"not-a-prefix"}, n_quick=16, n_thorough=120, big=False)
+    r = W.explore(dict(ctx, seed=ctx["seed"] + 1000), "C03", {"not-a-prefix"}, n_quick=16, n_thorough=120, big=False,
+                  proto=P, proto_traces=16 if ctx["tier"] == "quick" else 80, proto_gen2=3 if ctx["tier"] == "quick" else 8)
+    r = MG.directed("C03", r)
     r["violations"] = [(d, t) for (d, t, _) in r["violations"]][:3]
-    return r
+    return P.merge(r, ctx, "C03")
 
 
 def replay(ctx):
